@@ -8,6 +8,9 @@ import sys
 
 VERIF_DIR = os.path.dirname(os.path.dirname(os.path.abspath(__file__)))
 REPO = os.path.abspath(os.environ.get('VERIF_REPO', '/repo'))
+# evidence and replay files of runs against another tree (mutants, seeded changes) must not
+# overwrite those of /repo
+OUT_DIR = VERIF_DIR if REPO == '/repo' else os.path.join('/var/tmp', 'mc-altrepo-out')
 
 
 def _bind_repo():
